@@ -12,7 +12,6 @@ import (
 	"testing"
 	"time"
 
-	rlog "github.com/alibaba/RedisShake/pkg/libs/log"
 	run "github.com/alibaba/RedisShake/redis-shake"
 	utils "github.com/alibaba/RedisShake/redis-shake/common"
 	conf "github.com/alibaba/RedisShake/redis-shake/configure"
@@ -346,8 +345,7 @@ func c16Batch(t *rapid.T) {
 	c.filt.slots, c.filt.lua = nil, false
 	c.apply()
 	defer resetRumpConf()
-	rlog.SetLevel(rlog.LEVEL_INFO)
-	defer rlog.SetLevel(rlog.LEVEL_ALL)
+	defer quietLog()()
 	k := rapid.IntRange(8, 20).Draw(t, "k")
 	scripts := make([]*rumpScript, k)
 	for i := range scripts {
@@ -408,8 +406,7 @@ func c16KeyFile(t *rapid.T) {
 	c.filt.slots, c.filt.lua, c.filt.dbWhite, c.filt.dbBlack = nil, false, nil, nil
 	c.apply()
 	defer resetRumpConf()
-	rlog.SetLevel(rlog.LEVEL_INFO)
-	defer rlog.SetLevel(rlog.LEVEL_ALL)
+	defer quietLog()()
 	s := drawRumpScript(t, c, 0)
 	dir, err := os.MkdirTemp("", "verif-c16-")
 	if err != nil {
